@@ -341,7 +341,10 @@ class ResolverError(GraphQLLocatedError):
         extensions: Optional[Mapping[str, Any]] = None,
     ):
         super().__init__(message, nodes, path)
-        self.extensions = extensions
+        # A subclass may expose ``extensions`` itself (class attribute or
+        # property, see the class docstring): do not shadow it with ``None``.
+        if extensions is not None or not hasattr(type(self), "extensions"):
+            self.extensions = extensions
 
     def to_dict(self) -> Dict[str, Any]:
         dict_ = super().to_dict()
